@@ -24,6 +24,7 @@ from orso import Row
 from orso.group_by import GroupBy
 from orso.schema import RelationSchema
 from orso.tools import single_item_cache
+from orso.types import OrsoTypes
 
 
 class DataFrame:
@@ -372,8 +373,10 @@ class DataFrame:
             if isinstance(self._schema, RelationSchema):
                 column_data = self._schema.find_column(column)
                 column_type = column_data.type
+                if not column_type:
+                    column_type = OrsoTypes._MISSING_TYPE
                 if column_type is not None:
-                    data_type = str(column_data.type.value)
+                    data_type = str(column_type.value)
                 if column_type.value == "DECIMAL":
                     data_precision = column_data.precision
                     data_scale = column_data.scale
